@@ -64,6 +64,9 @@ type Net struct {
 	// OnServed, when set, observes every request that was served by a node
 	// (after the handler returned).
 	OnServed func(m *Msg)
+	// OnReturned, when set, observes every response that is handed back to the
+	// caller (it was neither lost nor cancelled).
+	OnReturned func(m *Msg)
 }
 
 func New(sc *sim.Sched, r *sim.Run) *Net {
@@ -193,5 +196,8 @@ func (t *rt) RoundTrip(req *http.Request) (*http.Response, error) {
 	}
 	res := rec.Result()
 	res.Request = req
+	if n.OnReturned != nil {
+		n.OnReturned(m)
+	}
 	return res, nil
 }
